@@ -8,14 +8,15 @@ for id in "$@"; do
   {
     echo "== $id @ $(git -C /repo rev-parse --short HEAD) $(date -u +%FT%TZ)"
     cd $W
+    pkg=$(cat $D/pkg 2>/dev/null || echo .)
     demo=$(ls $D/*_test.go 2>/dev/null | head -1)
     run=$(grep -o 'func Test[A-Za-z0-9_]*' $demo | sed 's/func //' | paste -sd'|')
-    cp $demo $W/zz_demo_test.go
-    echo "-- demo without change:"; GOMAXPROCS=4 go test -vet=off -count=1 -timeout 20m -run "^($run)\$" . 2>&1 | tail -3
+    cp $demo $W/$pkg/zz_demo_test.go
+    echo "-- demo without change:"; GOMAXPROCS=4 go test -vet=off -count=1 -timeout 20m -run "^($run)\$" $pkg 2>&1 | tail -3
     git apply $D/patch.diff && echo "-- patch applied" || echo "-- PATCH DOES NOT APPLY"
     go build ./... && echo "-- build ok"
-    echo "-- demo with change:"; GOMAXPROCS=4 go test -vet=off -count=1 -timeout 20m -run "^($run)\$" . 2>&1 | tail -3
-    rm -f $W/zz_demo_test.go
+    echo "-- demo with change:"; GOMAXPROCS=4 go test -vet=off -count=1 -timeout 20m -run "^($run)\$" $pkg 2>&1 | tail -3
+    rm -f $W/$pkg/zz_demo_test.go
     echo "-- suite with change:"; GOMAXPROCS=4 go test -p 1 -vet=off -count=1 -timeout 40m ./... 2>&1 | grep -v "no test files" | tail -8
   } > $D/verify.log 2>&1
   cd /; git -C /repo worktree remove --force $W
